@@ -136,16 +136,19 @@ type Cfg struct {
 	OptsLate bool `json:"optslate"`
 	// EnvLate (builder only) - the GetEnv modifiers are created before the environment variables are set and applied
 	// afterwards, when the options are declared: the variable is read when the option is declared
-	EnvLate bool      `json:"envlate"`
-	Mode    int       `json:"mode"`
-	Lower   bool      `json:"lower"`
-	Prog    Tok       `json:"prog"` // the name the program appears under in help texts and completion (os.Args[0] or Self)
-	Self    bool      `json:"self"` // the name is given with Self(name, description) instead of coming from os.Args[0]
-	Desc    Tok       `json:"desc"`
-	Nodes   []NodeCfg `json:"nodes"`
-	Opts    []OptCfg  `json:"opts"`
-	Env     []EnvCfg  `json:"env"`
-	Sets    []SetCfg  `json:"sets"`
+	EnvLate bool `json:"envlate"`
+	// UnsetLate (builder only; only for trees whose wrappers have no options and only wrappers below them) - the whole
+	// tree is declared first, then UnsetOptions is called on the wrappers, outermost first
+	UnsetLate bool      `json:"unsetlate"`
+	Mode      int       `json:"mode"`
+	Lower     bool      `json:"lower"`
+	Prog      Tok       `json:"prog"` // the name the program appears under in help texts and completion (os.Args[0] or Self)
+	Self      bool      `json:"self"` // the name is given with Self(name, description) instead of coming from os.Args[0]
+	Desc      Tok       `json:"desc"`
+	Nodes     []NodeCfg `json:"nodes"`
+	Opts      []OptCfg  `json:"opts"`
+	Env       []EnvCfg  `json:"env"`
+	Sets      []SetCfg  `json:"sets"`
 }
 
 type OrcEntry struct {
